@@ -25,7 +25,37 @@ func init() {
 	})
 }
 
+// checkFrontEndInvokeRecord: the Invoke record the front end hands to the sandbox carries the caller's
+// tracing headers verbatim (they end up in the INVOKE event and in the runtime's headers), a fresh
+// request id, and the request body.
+func checkFrontEndInvokeRecord(c *report.Ctx) {
+	f := fn(c, "M/cmd/aws-lambda-rie", "InvokeHandler")
+	if f == nil {
+		return
+	}
+	for field, hdr := range map[string]string{"TraceID": "X-Amzn-Trace-Id", "LambdaSegmentID": "X-Amzn-Segment-Id"} {
+		sts := an.Stores(f, "L/interop.Invoke", field)
+		ok := len(sts) == 1
+		got := "?"
+		for _, st := range sts {
+			cl, _ := an.CallOf(st.Val) // no conversion, no helper in between: the value itself
+			if cl == nil || an.Callee(cl) != "net/http.Header.Get" {
+				ok = false
+				got = an.Path(st.Val)
+				continue
+			}
+			k, isC := an.ConstString(cl.Call.Args[1])
+			got = "Header.Get(" + k + ")"
+			if !isC || k != hdr {
+				ok = false
+			}
+		}
+		c.Check("R-WIRE", an.FuncName(f)+"/invoke-record/"+field, "the caller's "+hdr+" header is handed on unchanged (the extensions' INVOKE event and the runtime's trace header carry exactly what the caller sent)", ok, fpos(f), len(sts), "stored value: %s", got)
+	}
+}
+
 func runC04(c *report.Ctx) {
+	checkFrontEndInvokeRecord(c)
 	c.Clause("1 doInvoke order")
 	outer := fn(c, "L/rapid", "doInvoke$1")
 	if outer == nil {
